@@ -83,6 +83,8 @@ type c04Case struct {
 	Group   string   `json:"group,omitempty"`   // root-cause tag used in hang/memory keys
 	Lambda  string   `json:"lambda,omitempty"`
 	Async   bool     `json:"async,omitempty"`
+	Wedge   bool     `json:"wedge,omitempty"` // the request is repeated c04WedgeRepeats times on one runtime before the probes
+	Repeats int      `json:"repeats,omitempty"` // wedge: number of repetitions if not c04WedgeRepeats
 }
 
 const c04ProbePath = "/zzprobe"
@@ -114,6 +116,9 @@ func (c *c04Case) routeText(path string) string {
 const c04ProbeRoute = "@ GET " + c04ProbePath + " {\n  > 7\n}\n"
 
 func (c *c04Case) source() string {
+	if c.Wedge {
+		return strings.Join(c.Decls, "\n") + "\n" + c.routeText("/t") + c04ProbeRoute + "@ GET /zzdeep/:n {\n  > zzdown(parseInt(n))\n}\n"
+	}
 	return strings.Join(c.Decls, "\n") + "\n" + c.routeText("/t") + c04ProbeRoute
 }
 
@@ -136,7 +141,7 @@ func (c *c04Case) batchable() bool {
 		return false
 	}
 	switch c.Layer {
-	case "deep", "loops", "async", "providers", "cyclic":
+	case "deep", "loops", "async", "providers", "cyclic", "wedge":
 		return false
 	}
 	for _, l := range c.Inj {
@@ -513,6 +518,7 @@ type c04HTTPOut struct {
 	UseCompiler bool
 	ProbeStatus int
 	ProbeBody   string
+	WedgeNote   string // wedge cases: the deep probe failed after the repetitions
 	SetupErr    string
 }
 
@@ -630,6 +636,53 @@ func (rt *c04Runtime) httpRun(c *c04Case, force bool) (out c04HTTPOut, note stri
 		out.Ran = true
 		out.Status = rec.Code
 		out.Body = rec.Body.String()
+		if c.Wedge {
+			// the same failing request again and again on this runtime, then a probe that needs nearly the whole
+			// evaluation depth: the deepest recursion a fresh runtime of this module answers (bisected on fresh
+			// runtimes first), which must still be answered here
+			deep := func(hh http.HandlerFunc, n int) (int, string) {
+				u, _ := url.ParseRequestURI(fmt.Sprintf("/zzdeep/%d", n))
+				r := &http.Request{Method: "GET", URL: u, Proto: "HTTP/1.1", ProtoMajor: 1, ProtoMinor: 1, Header: http.Header{},
+					Host: "example.com", RemoteAddr: "192.0.2.1:1234", RequestURI: u.Path, Body: http.NoBody}
+				rec := httptest.NewRecorder()
+				hh(rec, r)
+				return rec.Code, rec.Body.String()
+			}
+			fresh := func() http.HandlerFunc {
+				_, _, ws2, router2, err := setupRoutes(m, rt.file(), force)
+				if ws2 != nil {
+					defer c04Shutdown(ws2)
+				}
+				if err != nil {
+					return nil
+				}
+				return createHandler(router2)
+			}
+			lo, hi := 1, 600
+			for lo < hi {
+				mid := (lo + hi + 1) / 2
+				fh := fresh()
+				if fh == nil {
+					break
+				}
+				if st, _ := deep(fh, mid); st == 200 {
+					lo = mid
+				} else {
+					hi = mid - 1
+				}
+			}
+			reps := c04WedgeRepeats
+			if c.Repeats > 0 {
+				reps = c.Repeats
+			}
+			for i := 0; i < reps; i++ {
+				rq, _ := c.Req.build("")
+				h(httptest.NewRecorder(), rq)
+			}
+			if st, body := deep(h, lo); st != 200 {
+				out.WedgeNote = fmt.Sprintf("after %d repetitions of the failing request GET /zzdeep/%d (a recursion of depth %d, answered 200 on a fresh runtime) is answered %d %s", reps, lo, lo, st, strconv.Quote(c04Trunc(body, 120)))
+			}
+		}
 		// liveness: the same runtime must still answer a trivial request
 		prec := httptest.NewRecorder()
 		h(prec, c04ProbeRequest())
@@ -702,6 +755,9 @@ func (rt *c04Runtime) judgeHTTP(c *c04Case, step int, ev c04Eval, out c04HTTPOut
 		}
 		add("leak", fmt.Sprintf("leaked-internals/%s/%dxx/%s/%s", eng, out.Status/100, p, cls),
 			fmt.Sprintf("the %d body carries Go-internal text %q: %s", out.Status, p, strconv.Quote(c04Trunc(out.Body, 240))))
+	}
+	if out.WedgeNote != "" {
+		add("wedged", fmt.Sprintf("wedged/%s/limit-not-given-back/%s", eng, c.Group), out.WedgeNote)
 	}
 	if out.ProbeStatus != 200 || strings.TrimSpace(out.ProbeBody) != "7" {
 		add("wedged", fmt.Sprintf("wedged/%s/probe-%d", eng, out.ProbeStatus),
